@@ -47,6 +47,7 @@ var props = []propSpec{
 			{Name: "HarnessC13MinNative", Bounds: "12 Go numeric kinds; |value| <= 2^53, bound any non-NaN float64 in [-2^53, 2^53]; exclusive symbolic"},
 			{Name: "HarnessC13Validators", Bounds: "minimum/maximum (inclusive/exclusive, bounds picked from {-3,0,2,2.5,100}) through NewSchemaValidator and NewParamValidator with a fully symbolic value of each of the 12 Go numeric kinds"},
 			{Name: "HarnessC13MultipleOfValidators", Bounds: "multipleOf (factor in {1,2,3,0.5,1.5}) through NewSchemaValidator and MultipleOfNativeType with picked values in each of the 10 integer kinds"},
+			{Name: "HarnessC13HugeBounds", Bounds: "maximum / minimum (inclusive / exclusive) picked from {1e30, -1e30, 9.3e18, -9.3e18, 1.85e19, 1e19} (beyond int64, some beyond uint64) against fully symbolic int64, int8, uint64, uint8 values; oracle in integer arithmetic; helpers and schema validation"},
 			{Name: "HarnessC13MultipleOfDecimal", Bounds: "multipleOf on decimal fractions (<= 6 fractional digits): 11 values x sign x 7 factors, oracle = exact arithmetic on the values scaled by 10^6; helper, schema validation, parameter validation"},
 			{Name: "HarnessC13JSONNumber", Bounds: "json.Number carriers (integer literals from 7 picks incl. ±(2^53-1), fractional literals from 4 picks incl. \"3.0\") vs the float64 carrying the same number, maximum from 4 picks, type absent / number / integer"},
 			{Name: "HarnessC13MultipleOfInt", Bounds: "MultipleOfInt/Uint: |data| <= 2^31 (2^32 unsigned), 0 < factor <= 2^16"},
